@@ -56,12 +56,20 @@ def _case_h1(rng, tier, n, exhaustive_split=None):
               "h11_pass_raw_headers": rng.random() < 0.2, "keep_alive_timeout": 5}
     reqs, client, by_tag, paces = [], [], {}, []
     truncate = rng.random() < 0.08
+    # the server is told which names it answers to - exactly those the client uses, though (now and then) not in the same case:
+    # host names compare case-insensitively (RFC 3986 3.2.2)
+    names = rng.random() < 0.2
+    names_case = rng.choice([None, bytes.upper, bytes.title]) if names else None
     for i in range(nreq):
         tag = n * 10 + i
         sizes = None
         if exhaustive_split is not None:
             sizes = [0, 1, 5, 40]
         req = G.gen_request(rng, tag, version, tier, body_sizes=sizes)
+        if names_case:
+            req["authority"] = names_case(req["authority"])
+        if version == "1.1" and rng.random() < 0.06:
+            req["absolute"] = rng.choice([b"http://", b"HTTP://", b"https://"])
         if version == "1.1" and len(req["body"]) > 0 and rng.random() < 0.08:
             # an h2c upgrade offer on a request that carries a body is ignored by the server: the request is served as HTTP/1.1, body and all
             extra = [(b"Connection", b"Upgrade, HTTP2-Settings"), (b"Upgrade", b"h2c"), (b"HTTP2-Settings", b"AAMAAABkAAQAAP__")]
@@ -100,9 +108,8 @@ def _case_h1(rng, tier, n, exhaustive_split=None):
             if pace == "late":
                 client += [["trigger", "go%d" % r_["tag"]], ["settle"]]
     client.append(["eof"])
-    if rng.random() < 0.2:
-        # the server is told which names it answers to - exactly those the client uses
-        config["server_names"] = sorted({r_["authority"].decode() for r_ in reqs})
+    if names:
+        config["server_names"] = sorted({r_["authority"].decode().lower() for r_ in reqs})
     return {
         "family": "h1." + version + (".trunc" if truncate else "") + (".pipelined" if pipelined else ""), "backends": ["asyncio", "trio"],
         "config": config, "conn": conn, "apps": {"default": [["recv_until_end"], ["respond", 200, [], b"d"]], "by_tag": by_tag},
@@ -122,11 +129,15 @@ def _case_h2(rng, tier, n):
     uploads = {}
     total = 0
     small = rng.random() < 0.6
+    names = rng.random() < 0.15
+    names_case = rng.choice([None, bytes.upper, bytes.title]) if names else None
     for i in range(nreq):
         tag = n * 10 + i
         sid = 1 + 2 * i
         req = G.gen_request(rng, tag, "2", tier, body_sizes=[0, 1, 2, 17, 1024, 9000] if small else None)
         req["sid"] = sid
+        if names_case:
+            req["authority"] = names_case(req["authority"])
         req["complete"] = True
         pace, script = _app_script(rng, tag)
         by_tag[str(tag)] = script
@@ -164,6 +175,8 @@ def _case_h2(rng, tier, n):
         if pace == "late":
             client.append(["trigger", "go%d" % req["tag"]])
     client.append(["settle"])
+    if names:
+        config["server_names"] = sorted({r_["authority"].decode().lower() for r_ in reqs})
     return {
         "family": "h2." + ("tls" if tls else "prior") + (".small" if small else ".upload"),
         "backends": ["asyncio", "trio"], "config": config, "conn": conn,
